@@ -1,7 +1,7 @@
 """Correspondence + judging for the store / edge families (closed machines)."""
 from common import *
 import multiprocessing, itertools
-from gen_stores import gen_history, random_header, new_stats
+from gen_stores import gen_history, gen_flow_history, random_header, new_stats
 from lockstep import run_model, run_impl, first_diff, shrink, renumber
 from stores_impl import render, make_impl
 from judges import judge_store_trace
@@ -21,7 +21,10 @@ def _gen_chunk(args):
     for _ in range(n):
         h = random_header(rng, family)
         try:
-            ops, lines = gen_history(rng, h, rng.randrange(8, 60) if family not in ("slot", "cbelt") else rng.randrange(12, 90), stats=st)
+            if family in ("slot", "cbelt") and rng.random() < 0.3:
+                ops, lines = gen_flow_history(rng, h, rng.randrange(120, 420), stats=st)
+            else:
+                ops, lines = gen_history(rng, h, rng.randrange(8, 60) if family not in ("slot", "cbelt") else rng.randrange(12, 90), stats=st)
         except Exception as e:   # generator / adapter crash: report as an implementation trace that ends in an error
             ops, lines = [("settle",)], ["err " + type(e).__name__ + " |"]
         out.append((h, ops, lines))
